@@ -230,3 +230,20 @@ prop(
         'tests every key for repetition and raises HplSyntaxError. X6 no state on the shared transformer. G6 arity.'
     ),
 )
+
+prop(
+    'C06',
+    ['P1', 'P2', 'P3', 'P5', 'P6', 'F4', 'A1', 'A2'],
+    explanation=(
+        'String-template abstract interpretation of all 20 printers compared with the compiled grammar annotated by F1. '
+        'P1 every class prints through a package __str__. P2 on every print path every equality-relevant field the parser '
+        'can vary is printed itself (not a projection of it), selects between distinct literals (brackets, keywords per '
+        'scope/pattern kind), or is pinned by the path guard / the class validators (None alias, INF bound, GLOBAL scope). '
+        'P3 every print alternative is word for word and slot for slot a variant of a grammar rule that builds the class, '
+        'with each slot where F1 says that child feeds that field (roles per keyword, operand order, bracket <-> flag, time '
+        'unit), operators and quantifiers inside one pair of parentheses (precedence-free nesting). P5 restructured n-ary '
+        'nodes print flat. P6 numeric fields are printed without arithmetic. F4 no NaN in an ==-compared field. A1/A2 '
+        'equality/hash are the generated ones and ignore only metadata. Not decided: repr(float)/float() exactness '
+        '(trusted), re-lexing of literal tokens.'
+    ),
+)
